@@ -30,9 +30,26 @@ pub fn net_in_req(n: Network) -> NetworkInRequest {
     n.into()
 }
 
+thread_local! {
+    pub static IN_GUARD: std::cell::Cell<u32> = const { std::cell::Cell::new(0) };
+}
+
+/// Panics of the code under test are observations, not errors of the harness: silence them.
+pub fn install_panic_hook() {
+    let default = std::panic::take_hook();
+    std::panic::set_hook(Box::new(move |info| {
+        if IN_GUARD.with(|g| g.get()) == 0 {
+            default(info);
+        }
+    }));
+}
+
 /// Runs `f`, mapping a panic to `Err(first line of the panic message)`.
 pub fn guarded<R>(f: impl FnOnce() -> R) -> Result<R, String> {
-    match catch_unwind(AssertUnwindSafe(f)) {
+    IN_GUARD.with(|g| g.set(g.get() + 1));
+    let res = catch_unwind(AssertUnwindSafe(f));
+    IN_GUARD.with(|g| g.set(g.get() - 1));
+    match res {
         Ok(r) => Ok(r),
         Err(e) => {
             let msg = if let Some(s) = e.downcast_ref::<&str>() {
@@ -96,7 +113,9 @@ pub fn script_address(script: &bitcoin::Script, network: Network) -> Option<Stri
 pub fn block_text(b: &Block, network: Network) -> String {
     let hdr = b.header();
     let mut txs: Vec<String> = vec![];
-    for tx in b.txdata() {
+    let raw_txs = &b.internal_bitcoin_block().txdata;
+    for (tx_i, tx) in b.txdata().iter().enumerate() {
+        let ntxid = hex::encode(raw_txs[tx_i].compute_ntxid().to_byte_array());
         let ins: Vec<String> = tx
             .input()
             .iter()
@@ -122,8 +141,9 @@ pub fn block_text(b: &Block, network: Network) -> String {
             })
             .collect();
         txs.push(format!(
-            "{}:{}:{}:{}:{}",
+            "{}:{}:{}:{}:{}:{}",
             hex::encode(tx.txid().as_bytes()),
+            ntxid,
             if tx.is_coinbase() { 1 } else { 0 },
             tx.vsize(),
             ins.join("|"),
@@ -131,13 +151,15 @@ pub fn block_text(b: &Block, network: Network) -> String {
         ));
     }
     format!(
-        "{},{},{},{},{},{},{}",
+        "{},{},{},{},{},{},{},{}",
         block_hash_hex(b),
         hex::encode(hdr.prev_blockhash.as_byte_array()),
-        b.difficulty(network),
+        // `Target::difficulty` panics on a zero target (such a header never passes validation)
+        guarded(|| b.difficulty(network)).unwrap_or(0),
         hdr.time,
         hdr.bits.to_consensus(),
         header_hex(hdr),
+        if b.internal_bitcoin_block().check_merkle_root() { 1 } else { 0 },
         txs.join(";")
     )
 }
